@@ -136,7 +136,22 @@ class Gen:
         self.xp_of_root = {}
         self.cnt = 0
         self.bad_scope = rng.random() < 0.04
-        self.has_d = "<d>" in g
+        self.user_names = set()
+
+    def user_name(self, T, prefix):
+        """name written by the user for a quantifier / match-expression variable of type T.  One third of the names
+        are taken from the name space the elaboration itself draws from (`d`, `d_0`, `d_1` for <d>): this is what
+        makes the bookkeeping of used names observable (name capture)"""
+        rng = self.rng
+        self.cnt += 1
+        if rng.random() < 0.35:
+            nm = T[1:-1] + rng.choice(["", "", "_0", "_1"])
+            if nm not in self.user_names and nm != "start":
+                self.user_names.add(nm)
+                return nm
+        nm = prefix + T[1:-1] + str(self.cnt)
+        self.user_names.add(nm)
+        return nm
 
     # ---------------- infix chains (positive polarity only)
     def int_operand(self, slots, depth=0):
@@ -224,7 +239,39 @@ class Gen:
                 body = ('and', body, extra) if rng.random() < 0.7 else ('and', extra, body)
         return ('int', False, n, body)
 
-    def mexpr(self, T):
+    def capture_formula(self):
+        """name-capture scenario: (un)named quantifier whose match expression binds a variable called like the
+        name the elaboration would invent (`d` for <d>), and a free nonterminal / XPath result of that type
+        inside and outside its scope"""
+        rng = self.rng
+        cands = [T for T in self.nts if any(any(s_ in self.cg for s_ in a) and a and "" not in a for a in self.cg[T])]
+        T = rng.choice(cands)
+        me, mbound = self.mexpr(T, force=True)
+        if not mbound:
+            return self.formula(2, [])
+        mv = rng.choice(mbound)
+        U = mv[2]
+        named = rng.random() < 0.4
+        name = self.user_name(T, "v") if named else None
+        sc = [('name', name, T, True) if named else ('anon', T, True)] + mbound
+        inner = ('atom', True, 50, [('var', mv[1]), ('free', U)], rng.randrange(2))
+        if rng.random() < 0.5:
+            inner = (rng.choice(['and', 'or']), inner, self.atom(sc, 1))
+        f = ('q', rng.random() < 0.5, T, name, None, inner, me)
+        r = rng.random()
+        if r < 0.35:
+            f = (rng.choice(['and', 'or']), f, ('atom', True, 1 + rng.randrange(len(LITS)), [('free', U)], 0))
+        elif r < 0.6:
+            # XPath whose result has type U, rooted at another free nonterminal
+            roots = [R for R in self.nts if R != T and any(U in a for a in self.cg[R])]
+            if roots:
+                R = rng.choice(roots)
+                alt = rng.choice([a for a in self.cg[R] if U in a])
+                xp = ('xp', ((R, 0), (U, rng.randrange(alt.count(U)))))
+                f = (rng.choice(['and', 'or']), ('atom', True, 1 + rng.randrange(len(LITS)), [xp], 0), f)
+        return f
+
+    def mexpr(self, T, force=False):
         """user-written match expression for a quantifier over T: (elements, bound scope entries)"""
         rng = self.rng
         alts = [a for a in self.cg.get(T, []) if any(s in self.cg for s in a) and "" not in a]
@@ -234,7 +281,7 @@ class Gen:
         if rng.random() < 0.25:      # second level
             idx = [i for i, s in enumerate(leaves) if s in self.cg]
             i = rng.choice(idx)
-            sub = [a for a in self.cg[leaves[i]] if "" not in a]
+            sub = [a for a in self.cg[leaves[i]] if a and "" not in a]
             if sub:
                 leaves = leaves[:i] + list(rng.choice(sub)) + leaves[i + 1:]
         # merge adjacent terminal tokens (the text is re-tokenised by RE_NONTERMINAL)
@@ -246,9 +293,12 @@ class Gen:
                 toks.append(l)
         me, bound = [], []
         for t in toks:
-            if t in self.cg and rng.random() < 0.6:
-                self.cnt += 1
-                nm = "m" + t[1:-1] + str(self.cnt)
+            if t in self.cg and (rng.random() < 0.6 or (force and not bound)):
+                nm = t[1:-1] + rng.choice(["", "", "_0"]) if force else None
+                if nm is None or nm in self.user_names:
+                    nm = self.user_name(t, "m")
+                else:
+                    self.user_names.add(nm)
                 me.append(('b', t, nm))
                 bound.append(('name', nm, t, True))
             else:
@@ -340,8 +390,7 @@ class Gen:
         if rng.random() < 0.5 and not anon_in_scope:
             name, sc = None, ('anon', T, me is not None)
         else:
-            self.cnt += 1
-            name = "v" + T[1:-1] + str(self.cnt)
+            name = self.user_name(T, "v")
             sc = ('name', name, T, me is not None)
         r2 = rng.random()
         if r2 < 0.6:
@@ -624,9 +673,10 @@ class DocElab:
             body2 = self.repl_term(body, xp, ('var', x))
         cbody = self.core(body2)
         parts = []
-        for leaves, cur in exps:
+        for j, (leaves, cur) in enumerate(exps):
             me = [('b', lastT, x) if i == cur else ('d', l) for i, l in enumerate(leaves) if i == cur or l != ""]
-            parts.append(('q', fa, T, nm, inn_name, me, cbody))
+            # a numeric variable may be declared only once in a specification: rename it in the copies
+            parts.append(('q', fa, T, nm, inn_name, me, cbody if j == 0 else rename_ints(cbody, f"c{j}", {})))
         out = parts[0]
         for p in parts[1:]:
             out = ('and' if fa else 'or', out, p)
@@ -640,6 +690,21 @@ class DocElab:
             f = ('q', True, T, nm, None, self.subst(f, T, nm), None)
             closed.append(T)
         return self.core(f), closed
+
+
+def rename_ints(f, suffix, env):
+    """core formula with the numeric quantifier variables renamed apart (alpha-renaming of the copy)"""
+    k = f[0]
+    if k == 'atom':
+        return ('atom', f[1], f[2], [env.get(n, n) for n in f[3]])
+    if k == 'not':
+        return ('not', rename_ints(f[1], suffix, env))
+    if k == 'int':
+        env2 = dict(env, **{f[2]: f[2] + suffix})
+        return ('int', f[1], f[2] + suffix, rename_ints(f[3], suffix, env2))
+    if k == 'q':
+        return f[:6] + (rename_ints(f[6], suffix, env),)
+    return (k, rename_ints(f[1], suffix, env), rename_ints(f[2], suffix, env))
 
 
 def dotdot_targets(f, acc):
@@ -858,8 +923,9 @@ def resolve_chain(node, steps):
     return cur
 
 
-def xp_terms(f, env, pol, acc):
-    """all XPath terms with (root type, binder kind) ; env: name/anon-type -> (type, fa, polarity)"""
+def xp_terms(f, env, pol, acc, path_ok=True):
+    """all XPath terms with (root type, binder) ; env: name/anon-type -> (type, fa, polarity, path_ok) where
+    path_ok = every quantifier ENCLOSING the binder is effectively universal (push-in can pass through it)"""
     k = f[0]
     if k == 'atom':
         for t in f[3]:
@@ -868,18 +934,19 @@ def xp_terms(f, env, pol, acc):
                 b = env.get(r)
                 acc.append((t, b[0] if b else r, b))
     elif k == 'not':
-        xp_terms(f[1], env, -pol, acc)
+        xp_terms(f[1], env, -pol, acc, path_ok)
     elif k == 'int':
-        xp_terms(f[3], env, pol, acc)
+        xp_terms(f[3], env, pol, acc, False)
     elif k == 'q':
         _, fa, T, nm, inn, body, me = f
-        xp_terms(body, dict(env, **{(nm or T): (T, fa, pol)}), pol, acc)
+        eff_univ = (fa and pol == 1) or ((not fa) and pol == -1)
+        xp_terms(body, dict(env, **{(nm or T): (T, fa, pol, path_ok)}), pol, acc, path_ok and eff_univ)
     elif k == 'imp':
-        xp_terms(f[1], env, -pol, acc); xp_terms(f[2], env, pol, acc)
+        xp_terms(f[1], env, -pol, acc, path_ok); xp_terms(f[2], env, pol, acc, path_ok)
     elif k in ('iff', 'xor'):
-        xp_terms(f[1], env, 0, acc); xp_terms(f[2], env, 0, acc)
+        xp_terms(f[1], env, 0, acc, False); xp_terms(f[2], env, 0, acc, False)
     else:
-        xp_terms(f[1], env, pol, acc); xp_terms(f[2], env, pol, acc)
+        xp_terms(f[1], env, pol, acc, path_ok); xp_terms(f[2], env, pol, acc, path_ok)
     return acc
 
 
@@ -906,9 +973,11 @@ def k_xpath_dup(surface):
 
 
 def k_dotdot_polarity(surface):
-    """a `..` XPath whose first variable is not bound by a universal quantifier in positive polarity
-    (free nonterminal roots are closed universally at top level and are fine)"""
-    return any(len(t) > 2 and b is not None and not (b[1] and b[2] == 1) for t, _, b in xp_terms(surface, {}, 1, []))
+    """a `..` XPath whose first variable is not bound by a universal quantifier in positive polarity, or whose
+    binder lies below an existential / numeric quantifier (the added quantifier is pushed in from the top and
+    only passes universal quantifiers and and/or); free nonterminal roots are closed at top level and are fine"""
+    return any(len(t) > 2 and b is not None and not (b[1] and b[2] == 1 and b[3])
+               for t, _, b in xp_terms(surface, {}, 1, []))
 
 
 def fresh_bases(f, acc, env=None, ctr=None):
@@ -1024,7 +1093,7 @@ def run(run):
         run.violation({"kind": "known-finding witness not replayable", "error": str(e)[:500],
                        "obligation": "harness/c08.py replay_known"}, found_input=False)
 
-    nform = 2000 if thorough else 420
+    nform = 2000 if thorough else 360
     ntrees = 4 if thorough else 3
     hist = {"parse_ok": 0, "parse_raise": 0, "doc_undefined": 0, "eval_pairs": 0, "eval_agree": 0,
             "known_pushin_empty": 0, "known_dotdot_polarity": 0, "known_fresh_clash": 0, "known_root_also_free": 0, "known_xpath_dup": 0, "nonconstant_formulas": 0, "uses_xpath": 0, "uses_dotdot": 0,
@@ -1037,7 +1106,7 @@ def run(run):
         gi = rng.randrange(len(GRAMMARS))
         g = GRAMMARS[gi]
         gen = Gen(rng, g)
-        f = gen.formula(rng.randint(1, 3), [])
+        f = gen.capture_formula() if rng.random() < 0.07 else gen.formula(rng.randint(1, 3), [])
         sugar = p_sugar(f)
         nontrivial = changes_ast(f)
         run.count((gi, sugar), nontrivial)
